@@ -1064,6 +1064,11 @@ where
         }
         let keyk: K = k::<K>(ctx, ki);
         let after = tagged(&world, tag, BloomProvider::check_filter(&*storage, &keyk)).await;
+        if world.seq() != seq_before {
+            // an injected read error hit this probe (the conservative answer is legitimate then)
+            world.probe("offload_check_skipped_background_io");
+            return;
+        }
         if after != before[ki as usize] {
             ctx.violate(&["C10"], "offload-changes-answer", format!("check_filter changed from {:?} to {:?} across offload_buffer", before[ki as usize], after), format!("uid={} key={} needed={} level={}", op.uid, ki, needed, level));
             break;
